@@ -1,0 +1,30 @@
+//go:build verif
+
+/*
+   Copyright © The CDI Authors
+
+   Licensed under the Apache License, Version 2.0 (the "License");
+   you may not use this file except in compliance with the License.
+   You may obtain a copy of the License at
+
+       http://www.apache.org/licenses/LICENSE-2.0
+
+   Unless required by applicable law or agreed to in writing, software
+   distributed under the License is distributed on an "AS IS" BASIS,
+   WITHOUT WARRANTIES OR CONDITIONS OF ANY KIND, either express or implied.
+   See the License for the specific language governing permissions and
+   limitations under the License.
+*/
+
+package cdi
+
+// VerifPoint, when set, is called at named points between the file-system
+// operations of (*Spec).write. It only exists in builds with the "verif" tag
+// and is used by the verification harness to pause or kill the writer.
+var VerifPoint func(point, arg string)
+
+func verifPoint(point, arg string) {
+	if f := VerifPoint; f != nil {
+		f(point, arg)
+	}
+}
